@@ -117,8 +117,8 @@ def run(ctx, replay=None):
 
     quick = ctx.tier == 'quick'
     exhaustive = ['q', 'f3'] if quick else ['q', 'f3', 'u4', 'u3q', 'u4m', 'u3p']
-    graph_cfgs = {'q': (26, 200)} if quick else {'q': (26, 1000), 'u4': (34, 500), 'u3q': (30, 400)}
-    walks = {'q': 200} if quick else {'q': 300, 'u4': 500, 'u3q': 400}
+    graph_cfgs = {'q': (26, 200)} if quick else {'q': (26, 600), 'u4': (34, 400), 'u3q': (30, 300)}
+    walks = {'q': 200} if quick else {'q': 200, 'u4': 400, 'u3q': 300}
     all_traces = []
     for name in exhaustive:
         cfgfile = CFGS[name][0]
